@@ -4,6 +4,7 @@ import typing as T
 import yaml
 import snowfakery  # noqa
 from .utils.yaml_utils import SnowfakeryDumper
+from .data_gen_exceptions import DataGenNameError
 from contextvars import ContextVar
 
 if T.TYPE_CHECKING:
@@ -111,6 +112,7 @@ class NicknameSlot(ObjectReference):
     id_manager: IdManager
     allocated_id: T.Optional[int] = None
     consumed: bool = False
+    expired: bool = False  # the iteration that created this slot is over
 
     def __init__(self, tablename: str, id_manager: IdManager):
         self._tablename = tablename
@@ -120,6 +122,12 @@ class NicknameSlot(ObjectReference):
     def id(self):
         "Get an id corresponding to this slot. Generate one if necessary."
         if self.allocated_id is None:
+            if self.expired:
+                # a forward reference kept (e.g. in a variable) beyond its iteration:
+                # no row of that iteration can fulfil it any more
+                raise DataGenNameError(
+                    f"Reference to {self._tablename} was made in an earlier iteration and never used there"
+                )
             self.allocated_id = self.id_manager.generate_id(self._tablename)
         return self.allocated_id
 
